@@ -8,7 +8,21 @@ PROFILE = gen.Profile(
     p_unknown_event=0.05, n_ops=(2, 8), p_coro=0.0,
     p_group=dict(validators=0.05, cond=0.2, unless=0.1, before=0.4, on=0.4, after=0.4, enter=0.45, exit=0.4),
 )
-PROFILE_ASYNC = gen.Profile(**{**PROFILE.__dict__, "p_coro": 0.5, "drivers": ("facade", "loop"), "p_rtc_off": 0.0})
+PROFILE_ASYNC = gen.Profile(**{**PROFILE.__dict__, "p_coro": 0.5, "drivers": ("facade", "loop"), "p_rtc_off": 0.0,
+                               "p_activate": 0.15})
+
+
+def mutate_async(rng, s):
+    """explicit activation right after construction, with the start state's enter callbacks sending events:
+    they are queued behind the activation like any nested event"""
+    if rng.random() < 0.5:
+        s.ops = [s.ops[0], ("activate",)] + list(s.ops[1:])
+    ent = [c for c in s.cbs if c.group == "enter"]
+    evs = sorted({e for t in s.trans for e in t.events})
+    if ent and evs and s.cur0 is None and rng.random() < 0.5:
+        c = rng.choice(ent)
+        if not any(a[5] for a in s.acts if a[1] <= 0 <= a[2]):
+            s.acts.insert(0, (c.id, 0, 0, 0, None, [rng.choice(evs) for _ in range(rng.randint(1, 2))]))
 
 
 def nontrivial(s, a, rt):
@@ -74,6 +88,17 @@ def chain_scenarios(ctx):
             s.acts = [(1, 0, n, 17, None, [8]), (2, 0, 10**9, 13, None, [])]
             s.ops = [("construct",), ("send", 8), ("send", 8)]
             out.append(s)
+    # fan-out: one callback queues many events at once (the queue has no capacity limit: none may be lost)
+    for k, n in enumerate([1200] if ctx.tier == "quick" else [1200, 3000]):
+        for is_async in (False, True):
+            s = eng.Scn(name=f"fanout-{ctx.seed}-{k}-{int(is_async)}", rtc=True, driver="facade" if is_async else "sync")
+            s.states = [eng.St(val=1, initial=True), eng.St(val=2)]
+            s.trans = [eng.Tr(0, 1, [8]), eng.Tr(1, 1, [4], internal=True), eng.Tr(1, 0, [9])]
+            s.cbs = [eng.Cb(1, "on", "conv", "machine", "on_tick", ("ev", 8), sig="kwargs", coro=is_async),
+                     eng.Cb(2, "on", "conv", "model", "on_e", ("ev", 4), sig="kwargs")]
+            s.acts = [(1, 0, 10**9, 17, None, [4] * n), (2, 0, 10**9, 13, None, [])]
+            s.ops = [("construct",), ("send", 8), ("send", 9)]
+            out.append(s)
     return out
 
 
@@ -104,7 +129,7 @@ def run(ctx):
     n = engine_check(ctx, PROFILE, 700, 12000, nontrivial, monitor=monitor, post=post, tag="C03s",
                      extra_scns=chain_scenarios(ctx))
     cov1 = dict(ctx.coverage)
-    engine_check(ctx, PROFILE_ASYNC, 300, 6000, nontrivial, monitor=monitor, tag="C03a")
+    engine_check(ctx, PROFILE_ASYNC, 300, 6000, nontrivial, monitor=monitor, tag="C03a", mutate=mutate_async)
     for k in ("evaluations", "distinct_nontrivial", "traces_validated_against_impl", "disagreements", "monitor_failures"):
         ctx.coverage[k] = ctx.coverage.get(k, 0) + cov1.get(k, 0)
     ctx.coverage["distribution_sync"] = cov1.get("distribution")
